@@ -1,8 +1,8 @@
-(* Determ/Inventory.v -- the obligation that ties the coverage table to the source as it is NOW:
+(* Determ/ProofsInventory.v -- the obligation that ties the coverage table to the source as it is NOW:
    gen/MapRanges.v is regenerated from the repository by the translator on every run and this
    file is recompiled against it. *)
 From Coq Require Import List String Bool Arith.
-From NIC Require Import Determ.Model Determ.Table gen.MapRanges.
+From NIC Require Import Determ.Model Determ.ProofsTable gen.MapRanges.
 Import ListNotations.
 
 Lemma inventory_checked : check_inventory MapRanges.sites MapRanges.nondet_uses = true.
